@@ -16,6 +16,11 @@ REPLY_ACK was negotiated and the request carries NEED_REPLY; fire-and-forget ope
 
 * `Atomic`   — declarative form of the first clause (quantifies over all decompositions of the history);
 * `OwnReply` — second clause;
+* `FaultClauses` — what the same three clauses mean when the peer mistreats some requests (a reply the caller must
+  refuse, or no reply at all because the peer closed the socket): "gets the reply to its own request" cannot hold for
+  the caller of a mistreated request — it must get an *error* (never a value, and by `Complete` never a hang) — and
+  must keep holding for everybody else; a caller whose request the peer never answered because it was gone gets an
+  error, not a value;
 * `scan`     — an executable judge of histories.  `Props.C10.scan_sound` proves that a history
   accepted by `scan` is `Atomic`; the spec driver runs `scan` on what the implementation did.
 -/
@@ -38,6 +43,34 @@ def OwnReply (tr : List Ev) : Prop := ∀ i t, Ev.rep i t ∈ tr → t = i
 
 /-- All `n` callers have returned. -/
 def Complete (n : Nat) (finished : Nat → Bool) : Prop := ∀ i, i < n → finished i = true
+
+/-! ### reply faults -/
+
+/-- How a call ended, as its caller sees it. -/
+inductive Outcome where
+  | value (tag : Nat)   -- returned what the reply the peer produced for the request of caller `tag` says
+  | error               -- returned an error that is not the content of a reply
+  | pending             -- has not returned
+deriving DecidableEq, Repr
+
+/-- The clauses about the callers' results when the peer mistreats the requests in `faulty` (answers them with a
+reply the caller must refuse, or not at all).  `expects i`: the request of caller `i` has a reply; `answered i`: the
+peer received that request and answered it correctly.  For every caller that returned and whose request has a reply:
+a mistreated request ⇒ an error; otherwise, answered ⇒ the caller's own reply; otherwise (the peer was gone) ⇒ an
+error.  Together with `Complete` ("never blocks") and `Atomic` / `OwnReply` on the history. -/
+def FaultClauses (expects faulty answered : Nat → Bool) (out : Nat → Outcome) : Prop :=
+  ∀ i, out i ≠ .pending → expects i = true →
+    (faulty i = true → out i = .error) ∧
+    (faulty i = false → answered i = true → out i = .value i) ∧
+    (faulty i = false → answered i = false → out i = .error)
+
+/-- executable form for callers `< n` -/
+def faultClausesB (n : Nat) (expects faulty answered : Nat → Bool) (out : Nat → Outcome) : Bool :=
+  (List.range n).all fun i =>
+    out i == .pending || !expects i ||
+      (if faulty i then out i == .error
+       else if answered i then out i == .value i
+       else out i == .error)
 
 /-! ### executable judge -/
 
